@@ -8,7 +8,10 @@
 (*  merge       a, b (lanes [l, c, r]), res = [l, c, r (integer vertices), ex], rlen      *)
 (*              (the lanelet a merge returns is a lanelet: the driver follows each merge  *)
 (*              with distance / interpolate events on it, judged against its own vertices)*)
-(*  succ_routes / pred_routes   succ (successor lists by id), len, start, range, res      *)
+(*  succ_routes / pred_routes   succ (successor lists by id), len, start, range, res,     *)
+(*              caller (the direct list of the object the search was called on), ck (own   *)
+(*              network object / original edited after the network copied it / foreign     *)
+(*              lanelet with a colliding id / merged lanelet)                              *)
 (*  mutate / inner_distance   steps of a history (crv/props/c20.py _exec_hist): accepted;  *)
 (*              the distance / interpolate events that follow carry the lanelet's CURRENT  *)
 (*              public vertices, so the expected values are those of the current polylines  *)
@@ -63,7 +66,9 @@ MergeClause(e) ==
           ELSE IF e.rlen[1] # Length(e.a.c) + Length(e.b.c) \/ e.rlen[2] < Prec(e) THEN "C20.Merge/length"
           ELSE ""
 
-RoutesOk(e) == /\ Len(e.len) = Len(e.succ) /\ e.start \in 1..Len(e.succ)
+RoutesOk(e) == /\ Len(e.len) = Len(e.succ) /\ e.start >= 1
+               /\ \A k \in 1..Len(e.caller) : e.caller[k] \in 1..Len(e.succ) \ {e.start}
+               /\ e.ck \in {"own", "edited-add", "edited-remove", "edited-assign", "foreign", "merged"}
                /\ \A n \in 1..Len(e.succ) : \A k \in 1..Len(e.succ[n]) : e.succ[n][k] \in 1..Len(e.succ) \ {n}
                /\ \A n \in 1..Len(e.len) : e.len[n] >= 1
                /\ e.U >= 1 /\ e.range >= 0
@@ -72,7 +77,9 @@ RoutesClause2(e) ==
   ELSE IF e.st = "timeout" THEN "C20.Terminates"
   ELSE IF e.st # "ok" THEN "C20.Total/" \o e.op
   ELSE LET g == IF e.op = "succ_routes" THEN GOf(e.succ) ELSE Rev(GOf(e.succ))
-           c == RoutesClause(g, e.len, e.start, e.range, e.res, e.U)
+           \* caller = the CALLER's current direct successor (predecessor) list, ck = who the caller is
+           d == {e.caller[k] : k \in 1..Len(e.caller)}
+           c == RoutesFrom(g, d, e.len, e.start, e.range, e.res, e.U, e.ck # "foreign")
        IN IF c = "" THEN "" ELSE "C20.Routes/" \o c
 
 Clause(e) ==
